@@ -26,14 +26,14 @@ REQUIRED = {
     "quick": {"extends/ok": 900, "extends/cycle_refused": 80, "extends/missing_parent_refused": 80,
               "extends/depth>=3": 150, "extends/excluded_key_in_parent": 150, "groups/range_len_1": 20,
               "groups/range_len_2": 20, "groups/range_len>=3": 100, "groups/count": 100, "groups/count_0": 5,
-              "groups/invalid_refused": 30, "access/checked_agents": 500, "random/values": 100000,
+              "groups/invalid_refused": 30, "groups/count_inherited_from_listed_group": 20, "access/checked_agents": 500, "random/values": 100000,
               "random/malformed_refused": 200, "class/builtin_resolved": 200, "class/user_resolved": 30,
               "class/clash_refused": 30, "class/unknown_refused": 30, "legacy/pairs_compared": 100,
               "legacy/both_spellings_refused": 20},
     "thorough": {"extends/ok": 27000, "extends/cycle_refused": 2400, "extends/missing_parent_refused": 2400,
                  "extends/depth>=3": 4500, "extends/excluded_key_in_parent": 4500, "groups/range_len_1": 500,
                  "groups/range_len_2": 500, "groups/range_len>=3": 3000, "groups/count": 3000, "groups/count_0": 150,
-                 "groups/invalid_refused": 900, "access/checked_agents": 15000, "random/values": 3000000,
+                 "groups/invalid_refused": 900, "groups/count_inherited_from_listed_group": 600, "access/checked_agents": 15000, "random/values": 3000000,
                  "random/malformed_refused": 6000, "class/builtin_resolved": 6000, "class/user_resolved": 900,
                  "class/clash_refused": 900, "class/unknown_refused": 900, "legacy/pairs_compared": 3000,
                  "legacy/both_spellings_refused": 600},
@@ -120,21 +120,58 @@ def gen_groups(rng):
     use_extends = rng.random() < 0.4
     if use_extends:
         cfg["BaseMarket"] = {"class": "Market", "tickSize": 0.5, "marketPrice": 100.0, "from": 7, "to": 9}
+    inherit_count = {}
+
+    def derived(kind, name, parent, listed=None):
+        """a group that extends an earlier, already listed group and may rely on its inherited count / prefix."""
+        key = "numMarkets" if kind == "markets" else "numAgents"
+        g = {"extends": parent}
+        if listed is not None and rng.random() < 0.5:
+            g["markets"] = listed
+        r = rng.random()
+        if r < 0.6:
+            n, cls = inherit_count[parent], "inherited-count"     # nothing of its own: nearest ancestor's count
+        elif r < 0.8:
+            n = rng.choice([1, 2, 5])
+            g[key] = n
+            cls = "count"
+        else:
+            a = rng.choice([0, 3])
+            n = rng.choice([1, 2, 4])
+            g["from"], g["to"] = a, a + n - 1
+            cls = "range"
+            if cfg[parent].get(key) is not None or inherit_count.get(parent, 1) != 1 and "from" not in cfg[parent]:
+                # an inherited count next to an own range is the documented invalid combination
+                return g, n, cls, "count-and-range"
+        return g, n, cls, None
+
     for i in range(n_mg):
         name = "MG%d" % i
-        base = {"extends": "BaseMarket"} if use_extends else {"class": "Market", "tickSize": 1.0, "marketPrice": 100.0 + i}
-        g, n, cls, invalid = group("markets", name, base)
+        prev = "MG%d" % (i - 1)
+        if i >= 1 and rng.random() < 0.35 and "prefix" not in cfg[prev] and expect["invalid"] is None:
+            g, n, cls, invalid = derived("markets", name, prev)
+        else:
+            base = {"extends": "BaseMarket"} if use_extends else {"class": "Market", "tickSize": 1.0, "marketPrice": 100.0 + i}
+            g, n, cls, invalid = group("markets", name, base)
         cfg[name] = g
+        inherit_count[name] = n if cls in ("count", "inherited-count") else 1
         cfg["simulation"]["markets"].append(name)
         expect["markets"].append((name, n, cls))
         if invalid and expect["invalid"] is None:
             expect["invalid"] = (name, invalid)
     for i in range(rng.randint(1, 3)):
         name = "AG%d" % i
+        prev = "AG%d" % (i - 1)
         listed = rng.sample(cfg["simulation"]["markets"], rng.randint(1, n_mg))
-        base = {"class": "TestAgent", "markets": listed, "cashAmount": 100, "assetVolume": 1}
-        g, n, cls, invalid = group("agents", name, base)
+        if i >= 1 and rng.random() < 0.35 and "prefix" not in cfg[prev] and expect["invalid"] is None:
+            g, n, cls, invalid = derived("agents", name, prev, listed)
+            if "markets" not in g:
+                listed = [x for x in expect["agents"] if x[0] == prev][0][3]
+        else:
+            base = {"class": "TestAgent", "markets": listed, "cashAmount": 100, "assetVolume": 1}
+            g, n, cls, invalid = group("agents", name, base)
         cfg[name] = g
+        inherit_count[name] = n if cls in ("count", "inherited-count") else 1
         cfg["simulation"]["agents"].append(name)
         expect["agents"].append((name, n, cls, listed))
         if invalid and expect["invalid"] is None:
@@ -376,6 +413,8 @@ def run_groups(case, res):
             pos += n
             if cls == "range":
                 res.count("groups/range_len_1" if n == 1 else "groups/range_len_2" if n == 2 else "groups/range_len>=3")
+            elif cls == "inherited-count":
+                res.count("groups/count_inherited_from_listed_group")
             elif cls == "count":
                 res.count("groups/count")
                 if n == 0:
